@@ -576,4 +576,7 @@ def check(prog: Program, rep):
     from rules.common import RuleProxy
     data_rhs_converted(prog, RuleProxy(rep, "C19.R6"), "C02.R11", {"kFlowDecomp": ["_encode_flow_decomposition", "_encode_flow_decomposition_with_given_weights"],
                                                                    "kFlowDecompCycles": ["_encode_flow_decomposition"], "MinGenSet": ["_create_solver", "_encode_partition_constraints"]})
-
+    from rules.values import python_arithmetic
+    if python_arithmetic(prog, rep, "C19.R4", [prog.function("flowpaths.utils.graphutils", "check_flow_conservation")],
+                         "a non-conserving flow (200 + 100 into a node, 44 out of it) passes the conservation check and is decomposed") < 2:
+        raise AnalysisError("check_flow_conservation: the sums of in- and out-flow were not found")
